@@ -1485,7 +1485,7 @@ class Lattice3D:
                 if (
                     np.isnan(particle.px)
                     or np.isnan(particle.py)
-                    or np.isnan(particle.py)
+                    or np.isnan(particle.pz)
                 ):
                     raise ValueError("Particle data contains NaN values.")
                 kernel_value = multivariate_normal(
@@ -1568,6 +1568,13 @@ class Lattice3D:
                             value_to_add = 0.0
                         # Add the value to the grid
                         temp_lattice.grid_[i, j, k] += value_to_add
+
+            if np.isnan(norm):
+                # a NaN kernel value (e.g. undefined or vanishing mass in the
+                # covariant kernel) would silently drop the particle
+                raise ValueError(
+                    "The smearing kernel is NaN for a particle, its quantity cannot be deposited."
+                )
 
             for i in range(temp_lattice.num_points_x_):
                 for j in range(temp_lattice.num_points_y_):
